@@ -423,6 +423,12 @@ static json_t *export_jwk(json_t *kd)
 		char *s;
 		oct_bytes(b, len, jstr(kd, "var", "a"));
 		s = b64u_enc(b, len);
+		if (jint(kd, "kpad", 0)) {	/* the same octets written WITH '=' padding (tolerated by the decoder): still len octets of key */
+			size_t n = strlen(s);
+			s = realloc(s, n + 4);
+			while (n % 4) s[n++] = '=';
+			s[n] = 0;
+		}
 		json_object_set_new(o, "kty", json_string("oct"));
 		json_object_set_new(o, "k", json_string(s));
 		free(s); free(b);
@@ -1452,6 +1458,15 @@ static char *segment_for(const char *cls, json_t *members, const char *algspell,
 	return seg;
 }
 
+struct opsthr { const char *name; int ret; char seen[32]; };
+static void *opsthr_main(void *p)
+{
+	struct opsthr *a = p;
+	if (strcmp(a->name, "~")) a->ret = jwt_set_crypto_ops(a->name);
+	snprintf(a->seen, sizeof a->seen, "%s", jwt_get_crypto_ops());
+	return NULL;
+}
+
 /* Build a token string from a descriptor.  Also returns through *info a json
  * object with concretisation details (lengths, positions) for the log. */
 static char *forge_token(json_t *td, json_t *info)
@@ -2269,6 +2284,15 @@ static void run_op(json_t *op)
 		json_object_set_new(ev, "cur", json_string(jwt_get_crypto_ops()));
 		json_object_set_new(ev, "curt", json_integer(jwt_get_crypto_ops_t()));
 		json_object_set_new(ev, "jwk", json_integer(jwt_crypto_ops_supports_jwk()));
+	} else if (!strcmp(name, "OpsThread")) {
+		/* the provider is the process's: what another thread sees and selects is what this one sees */
+		struct opsthr a = { jstr(op, "name", "~"), -1, "" };
+		pthread_t th;
+		if (pthread_create(&th, NULL, opsthr_main, &a)) die("pthread_create");
+		pthread_join(th, NULL);
+		json_object_set_new(ev, "ret", json_integer(a.ret));
+		json_object_set_new(ev, "seen", json_string(a.seen));
+		json_object_set_new(ev, "cur", json_string(jwt_get_crypto_ops()));
 	} else if (!strcmp(name, "OpsT")) {
 		int ret = jwt_set_crypto_ops_t((jwt_crypto_provider_t)jint(op, "id", 0));
 		json_object_set_new(ev, "ret", json_integer(ret));
@@ -2381,15 +2405,21 @@ static void run_op(json_t *op)
 		json_decref(res);
 		json_object_set_new(ev, "info", info);
 		if (tok) json_object_set_new(ev, "toklen", json_integer((json_int_t)strlen(tok)));
-		if (jint(op, "twin", 0)) {
-			struct cfgobj t; twin_make(&t, o, 0, 1);
-			json_object_set_new(ev, "fresh", verify_res(&t, tok));
-			twin_free(&t, 0);
-		}
-		if (jint(op, "nocb", 0)) {
-			struct cfgobj t; twin_make(&t, o, 0, 0);
-			json_object_set_new(ev, "nocbres", verify_res(&t, tok));
-			twin_free(&t, 0);
+		{
+			/* the twins are the reference: no allocation faults in them */
+			int fm = fault_mode;
+			fault_mode = 0;
+			if (jint(op, "twin", 0)) {
+				struct cfgobj t; twin_make(&t, o, 0, 1);
+				json_object_set_new(ev, "fresh", verify_res(&t, tok));
+				twin_free(&t, 0);
+			}
+			if (jint(op, "nocb", 0)) {
+				struct cfgobj t; twin_make(&t, o, 0, 0);
+				json_object_set_new(ev, "nocbres", verify_res(&t, tok));
+				twin_free(&t, 0);
+			}
+			fault_mode = fm;
 		}
 		if (jint(op, "logtok", 0) && tok && strlen(tok) < 3000 && is_plain_ascii(tok)) json_object_set_new(ev, "text", json_string(tok));
 		free(tok);
